@@ -81,8 +81,15 @@ func genInsertBody(rt *rapid.T, env *dataEnv) []*tw.Stmt {
 	g := newProgGen(rt, env)
 	g.wIf, g.wLoop, g.wAssign, g.wCtl = 3, 2, 0, 1
 	g.fewFailures = true
+	if c06InsertComps != nil {
+		// component uses at any nesting position of the insert's body (their files are collected here)
+		g.comps, g.wComp = c06InsertComps, 4
+	}
 	return g.block(2, false)
 }
+
+// c06InsertComps, when set, makes insert bodies contain component uses.
+var c06InsertComps refint.Files
 
 func genPage(rt *rapid.T, env *dataEnv, layoutRef string, k int, where map[string]string) ([]*tw.Stmt, map[string]string) {
 	forms := map[string]string{}
@@ -137,7 +144,7 @@ func genPage(rt *rapid.T, env *dataEnv, layoutRef string, k int, where map[strin
 
 func TestC06_Layouts(t *testing.T) {
 	c := harness.New(t, "C06", "layouts",
-		"template directories with a layout (1..4 distinct reserves at top level, inside @if(data flag), inside @each(data array) with loop.index, in attribute-like text, nested @if/@each/@if, in the @else of an @each / @for, in an @elseif branch) and a page using it by '~name', 'layouts/name' or another spelling of that path (/layouts/name, ./layouts/name, layouts//name, pages/../layouts/name; names with dots, dashes and digits included), the @use standing before, between or after the inserts, inserting a random subset of the reserves in random order, block form (markers, prints of data, @if/@each bodies, steps of a counter the layout declares and prints at its end) or expression form, with junk between the inserts (text, comments, blank lines, @if / @each / @for blocks, prints, @dump, expressions that would fail); data maps with every kind; directory 't' or 'x/t', extensions .tw / .tw.html / .html. Expected output: the reference composition model (layout rendered with each reserve replaced by the reference rendering of its insert, page text outside inserts discarded). Non-trivial: >= 2 reserves, one nested in @if/@each, and a proper non-empty subset inserted. Distinct by hash of files + data.")
+		"template directories with a layout (1..4 distinct reserves at top level, inside @if(data flag), inside @each(data array) with loop.index, in attribute-like text, nested @if/@each/@if, in the @else of an @each / @for, in an @elseif branch) and a page using it by '~name', 'layouts/name' or another spelling of that path (/layouts/name, ./layouts/name, layouts//name, pages/../layouts/name; names with dots, dashes and digits included), the @use standing before, between or after the inserts, inserting a random subset of the reserves in random order, block form (markers, prints of data, @if/@each bodies, component uses at any nesting position of the body, steps of a counter the layout declares and prints at its end) or expression form, with junk between the inserts (text, comments, blank lines, @if / @each / @for blocks, prints, @dump, expressions that would fail); data maps with every kind; directory 't' or 'x/t', extensions .tw / .tw.html / .html. Expected output: the reference composition model (layout rendered with each reserve replaced by the reference rendering of its insert, page text outside inserts discarded). Non-trivial: >= 2 reserves, one nested in @if/@each, and a proper non-empty subset inserted. Distinct by hash of files + data.")
 	defer c.Finish()
 	in := interp()
 	runRapid(t, c, 4000, 45000, func(rt *rapid.T) {
@@ -154,8 +161,16 @@ func TestC06_Layouts(t *testing.T) {
 			// other spellings of the same relative path
 			ref = rapid.SampledFrom([]string{"layouts/" + base, "layouts/" + base, "/layouts/" + base, "./layouts/" + base, "layouts//" + base, "pages/../layouts/" + base}).Draw(rt, "refSpelling")
 		}
+		if rapid.Bool().Draw(rt, "componentsInInserts") {
+			c06InsertComps = refint.Files{}
+		}
 		page, forms := genPage(rt, env, ref, k, where)
 		files := refint.Files{lname: layout, "pages/home": page}
+		compsInInserts := len(c06InsertComps)
+		for n, f := range c06InsertComps {
+			files[n] = f
+		}
+		c06InsertComps = nil
 		// other pages of the same directory that use the same layout (with no
 		// inserts, or with their own) must not see this page's inserts
 		others := []string{}
@@ -203,6 +218,9 @@ func TestC06_Layouts(t *testing.T) {
 		}
 		if usesLoop > 0 {
 			classes = append(classes, "insert-uses-layout-loop")
+		}
+		if compsInInserts > 0 {
+			classes = append(classes, "insert-with-component-uses")
 		}
 		if out.St == refint.Unspec {
 			classes = append(classes, "unspecified:"+firstWords(out.Why, 4))
